@@ -7,6 +7,7 @@
 struct daneinfo;
 
 extern int tls_init(const struct daneinfo *d, int cnt);
+extern int tls_cert_pinned(void);
 
 extern const char *clientcertname;	/**< filename of the TLS client certificate */
 extern const char *clientkeyname;	/**< filename of the TLS client key */
